@@ -19,6 +19,7 @@ def run(chk):
     chk.configs = cfgs
     chk.rule("T.symmetry", "T(Positive, wc, wc2) == T(Negative, -wc, -wc2); NonZero invariant under negation; T independent of own path "
              "type for Intersection / Union / Xor")
+    chk.rule("AXIS.mirror", "twin locals for the two axes read mirrored coordinates (transposing the input transposes the result)")
     chk.rule("T.point-equality", "Point::operator== is true iff x and y agree (z ignored), operator!= its negation: a duplicate or closing vertex is "
              "recognised whatever its z (8 cells per operator and instantiation)")
     chk.rule("INT64.product", "no product is formed in a signed 64-bit integer type (integer scaling of the input up to 2^40 must not change "
@@ -31,6 +32,7 @@ def run(chk):
         e3.comparators(db, chk, cfg)
         e9.rule_int64_product(db, chk, cfg)
         e3.point_equality_table(db, chk, cfg)
+        e3.axis_mirror_rule(db, chk, cfg)
         e3.closing_vertex_rule(db, chk, cfg)
     chk.floor("T.symmetry", 1700 * len(cfgs))
     chk.floor("T.comparator", 1600 * len(cfgs))
